@@ -64,6 +64,7 @@ type vwWorld struct {
 	logs     []*vwLog // configured, sorted by id
 	unknown  []string // IDs that are not configured
 	maxN     int
+	aliases  []vwAlias
 	wKeyPEM  string
 	wKind    string // witness key: p256 | rsa | ed25519 (New accepts it, tls.CreateSignature cannot use it)
 	canSign  bool
@@ -72,6 +73,11 @@ type vwWorld struct {
 	rawTok   map[string]int
 	signed   map[string]ct.DigitallySigned
 	otherKey *ecdsa.PrivateKey
+}
+
+type vwAlias struct {
+	id  string
+	log *vwLog
 }
 
 func vwGenKey() *ecdsa.PrivateKey {
@@ -128,6 +134,16 @@ func newVWWorld(r *verifkit.Rand, nLogs, maxN int, kind string) *vwWorld {
 	uk := vwGenKey()
 	uid, _ := vwLogID(uk)
 	w.unknown = []string{uid, "garbage", "", "a b"}
+	// other spellings of CONFIGURED log IDs that Go's non-strict base64 decodes to the same 32 bytes: non-zero padding bits
+	// in the last sextet, a trailing newline. They are not keys of Witness.Logs: the log is unknown under that name.
+	const b64 = "ABCDEFGHIJKLMNOPQRSTUVWXYZabcdefghijklmnopqrstuvwxyz0123456789+/"
+	for _, l := range w.logs {
+		if !l.real || len(l.id) != 44 {
+			continue
+		}
+		i := strings.IndexByte(b64, l.id[42])
+		w.aliases = append(w.aliases, vwAlias{l.id[:42] + string(b64[i|1+r.Intn(2)*2]) + "=", l}, vwAlias{l.id + "\n", l})
+	}
 	w.otherKey = uk
 	var priv, pub interface{}
 	switch kind {
@@ -503,7 +519,9 @@ func (in *vwInst) checkUpdate(key string, id string, target *vwLog, known bool, 
 	valid := target != nil && c.valid(target, known)
 	if accepted {
 		out.Count("mode:accepted")
-		if !valid {
+		if !known {
+			out.Fail(key, fmt.Sprintf("stored_signed: an Update addressed to log ID %q, which is not a key of the configured logs, was stored and cosigned (%s)", id, c.desc))
+		} else if !valid {
 			out.Fail(key, "stored_signed: cosigned an STH that does not carry a valid signature of the configured log ("+c.desc+")")
 		}
 		if !bytes.Equal(after, c.raw) {
@@ -742,6 +760,9 @@ func (in *vwInst) step(r *verifkit.Rand) {
 	switch {
 	case x < 8:
 		ids := append([]string{}, w.unknown...)
+		for _, a := range w.aliases {
+			ids = append(ids, a.id)
+		}
 		for _, l := range w.logs {
 			ids = append(ids, l.id)
 		}
@@ -753,9 +774,30 @@ func (in *vwInst) step(r *verifkit.Rand) {
 	case x < 18: // unknown / undecodable log IDs
 		src := reals[r.Intn(len(reals))]
 		c := w.mkCand(r, src, src, 0, uint64(r.Intn(w.maxN+1)), 0, "good", "absent", "plain")
-		if r.Bool() {
+		if k := r.Intn(3); k == 0 {
 			id := w.unknown[r.Intn(len(w.unknown))]
 			in.update(id, nil, false, c, nil, "unknown-log")
+		} else if k == 1 && len(w.aliases) > 0 {
+			// a validly signed head of a configured log, addressed by another base64 spelling of its ID: fresh, stale or forked
+			a := w.aliases[r.Intn(len(w.aliases))]
+			size := uint64(r.Intn(w.maxN + 1))
+			if h := in.held[a.log.id]; h != nil && h.size > 0 && r.Bool() {
+				size = uint64(r.Intn(int(h.size))) // smaller than what is held under the configured spelling
+			}
+			ca := w.mkCand(r, a.log, a.log, r.Intn(len(a.log.forks)), size, 0, "good", []string{"absent", "correct"}[r.Intn(2)], "plain")
+			in.update(a.id, nil, false, ca, nil, "alias-of-configured-log-id")
+			// per log-ID *hash*: whatever spelling was used, the heads the witness holds and cosigns for one log must be one
+			// forward-moving, consistent history
+			if got, main := in.held[a.id], in.held[a.log.id]; got != nil && main != nil {
+				lo, hi := got, main
+				if lo.size > hi.size {
+					lo, hi = hi, lo
+				}
+				if !vwExtends(lo, hi) || (lo.size == hi.size && !bytes.Equal(lo.root, hi.root)) {
+					in.out.Fail(fmt.Sprintf("%s op%d alias-of-configured-log-id %q", in.name, in.nOps, a.id),
+						fmt.Sprintf("monotone (per log-ID hash): under the spelling %q of log %q the witness holds and cosigns size=%d fork=%d while it holds size=%d fork=%d under the configured spelling — two inconsistent histories for one log", a.id, a.log.id, got.size, got.fork, main.size, main.fork))
+				}
+			}
 		} else {
 			var bogus []*vwLog
 			for _, l := range w.logs {
